@@ -84,11 +84,19 @@ pub fn load_certs(filename: &str) -> io::Result<Vec<Certificate>> {
     CertificateDer::pem_slice_iter(pem_data.as_bytes())
         .collect::<Result<Vec<_>, _>>()
         .map_err(|e| io::Error::new(ErrorKind::InvalidInput, format!("Invalid cert: {}", e)))
-        .map(|certs| {
-            certs
+        .and_then(|certs| {
+            // a file without a single certificate (an empty one, the key file by mistake) would
+            // give a TLS host that cannot complete any handshake
+            if certs.is_empty() {
+                return Err(io::Error::new(
+                    ErrorKind::InvalidInput,
+                    "No certificate found in the file",
+                ));
+            }
+            Ok(certs
                 .into_iter()
                 .map(|c| Certificate(c.into_owned().to_vec()))
-                .collect()
+                .collect())
         })
 }
 
